@@ -21,6 +21,10 @@ Judge(prop, ev, got, what) ==
     [] ev.k = "exact"   -> Chk(prop, "EqualsDefinition" \o what, got # None /\ Close(got, ev.exp, ev.tol))
     [] ev.k = "between" -> Chk(prop, "WithinSurfaceResistanceRange" \o what, got # None /\ got * 100 >= ev.lo - ev.tol /\ got * 100 <= ev.hi + ev.tol)
     [] OTHER -> TRUE
+PropsJudge(prop, ev, got, what) ==
+  CASE ev.k = "none"    -> Chk(prop, "DocumentedDefaultWhenUnresolved" \o what, got = 7700)
+    [] ev.k = "exact"   -> Chk(prop, "EqualsDefinition" \o what, got # None /\ Close(got, ev.exp, ev.tol))
+    [] OTHER -> TRUE
 
 TWall == /\ IsEvent("UWall")
          /\ Chk("C06", "ComputationSucceeds", Ev.ok)
@@ -35,6 +39,9 @@ TWin == /\ IsEvent("UWin")
                     /\ Judge("C07", Ev.u, Ev.got_u_props, "UInIndicators")
                     /\ Judge("C07", Ev.gwi, Ev.got_gwi, "Gglwi")
                     /\ Judge("C07", Ev.gsh, Ev.got_gsh, "Gglshwi")
+                    \* what the indicators use: the same values, and the documented default 0.77 where there is none
+                    /\ PropsJudge("C07", Ev.gwi, Ev.got_gwi_props, "GglwiInIndicators")
+                    /\ PropsJudge("C07", Ev.gsh, Ev.got_gsh_props, "GglshwiInIndicators")
                     \* U between glazing and frame values scaled by (1 + dU/100)
                     /\ Chk("C07", "UBetweenGlassAndFrame",
                            (Ev.u.k = "exact" /\ Ev.got_u # None) =>
